@@ -60,6 +60,8 @@ func (f c17Fault) String() string {
 		return fmt.Sprintf("fault %d set %d %s", f.k, f.a, verifx.Hex(f.data))
 	case "append":
 		return fmt.Sprintf("fault %d append %s", f.k, verifx.Hex(f.data))
+	case "misplaced":
+		return fmt.Sprintf("fault %d misplaced %d", f.k, f.a)
 	}
 	return fmt.Sprintf("fault %d %s", f.k, f.kind)
 }
@@ -100,8 +102,14 @@ func c17LayoutOf(d, stripe, n int) c17Layout {
 }
 
 // c17FaultCatalogue lists every single-shard fault of the catalogue for shard k of a part with layout l.
-func c17FaultCatalogue(k int, l c17Layout) []c17Fault {
+func c17FaultCatalogue(k, n int, l c17Layout) []c17Fault {
 	fs := []c17Fault{{k: k, kind: "missing"}, {k: k, kind: "foreign"}}
+	// a well-formed shard of the SAME part but of another position (a copy of shard j in store k)
+	for j := 0; j < n; j++ {
+		if j != k {
+			fs = append(fs, c17Fault{k: k, kind: "misplaced", a: j})
+		}
+	}
 	// truncations: empty file, inside the shard header, at every frame boundary, inside a frame header, inside a payload
 	fs = append(fs, c17Fault{k: k, kind: "trunc", a: 0}, c17Fault{k: k, kind: "trunc", a: 7})
 	for j, off := range l.frameOff {
@@ -284,7 +292,7 @@ func (rn *c17Runner) run(k int, seed uint64, c *c17Case) {
 	}
 	for _, f := range c.faults {
 		out.Line("%s", f.String())
-		if !present[f.k] && f.kind != "foreign" {
+		if !present[f.k] && f.kind != "foreign" && f.kind != "misplaced" {
 			continue
 		}
 		cur := append([]byte(nil), faulted[f.k]...)
@@ -311,6 +319,9 @@ func (rn *c17Runner) run(k int, seed uint64, c *c17Case) {
 		case "foreign":
 			present[f.k] = true
 			cur = verifx.Must(os.ReadFile(file(f.k, idB)))
+		case "misplaced":
+			present[f.k] = true
+			cur = append([]byte(nil), orig[f.a]...)
 		}
 		faulted[f.k] = cur
 	}
@@ -422,6 +433,10 @@ func runC17(args []string) {
 	// 8, 9: a lying shard next to a missing one (2+2, two faults ≤ p): the healed shard is built from the lie
 	emit(8, &c17Case{d: 2, p: 2, stripe: 1024, content: c5000, faults: []c17Fault{{k: 0, kind: "missing"}, {k: 1, kind: "set", a: l.frameOff[0] + 8, data: be(100)}}})
 	emit(9, &c17Case{d: 2, p: 2, stripe: 1024, content: c5000, faults: []c17Fault{{k: 0, kind: "missing"}, {k: 1, kind: "foreign"}}})
+	// 10, 11: a well-formed shard of another position: store 0 holds a copy of the parity shard (one fault ≤ p),
+	// the two data-shard stores swapped (two faults > p: fail or original, never the halves exchanged)
+	emit(10, &c17Case{d: 2, p: 1, stripe: 1024, content: c5000, faults: []c17Fault{{k: 0, kind: "misplaced", a: 2}}})
+	emit(11, &c17Case{d: 2, p: 1, stripe: 1024, content: c5000, faults: []c17Fault{{k: 0, kind: "misplaced", a: 1}, {k: 1, kind: "misplaced", a: 0}}})
 	cfgs := [][2]int{{1, 1}, {2, 1}, {2, 2}, {3, 2}}
 	// every single fault of the catalogue on one shard, for every configuration (quick: two sizes)
 	for _, dp := range cfgs {
@@ -437,7 +452,7 @@ func runC17(args []string) {
 				if f.Tier != "thorough" && sh != 0 && sh != d {
 					continue // quick: first data shard and first parity shard
 				}
-				for _, ft := range c17FaultCatalogue(sh, lay) {
+				for _, ft := range c17FaultCatalogue(sh, d+p, lay) {
 					emit(uint64(k), &c17Case{d: d, p: p, stripe: 1024, content: content, faults: []c17Fault{ft}, tx: k%2 == 0})
 				}
 			}
@@ -450,7 +465,7 @@ func runC17(args []string) {
 			for _, n := range []int{d*1024 + 1, 2 * d * 1024, 700} {
 				content := r0.Bytes(n)
 				lay := c17LayoutOf(d, 1024, n)
-				kinds := c17FaultCatalogue(0, lay)
+				kinds := c17FaultCatalogue(0, d+p, lay)
 				for mask := 1; mask < 1<<(d+p); mask++ {
 					for ki, proto := range kinds {
 						if proto.kind == "xor" && ki%3 != 0 {
@@ -497,7 +512,7 @@ func runC17(args []string) {
 			perm[j], perm[o] = perm[o], perm[j]
 		}
 		for j := 0; j < nf; j++ {
-			cat := c17FaultCatalogue(perm[j], lay)
+			cat := c17FaultCatalogue(perm[j], d+p, lay)
 			fs = append(fs, verifx.Pick(r, cat))
 			if r.Chance(1, 6) {
 				fs = append(fs, verifx.Pick(r, cat))
